@@ -11,7 +11,8 @@ Record case := mkcase {
   c_ops : list xop;
   c_vh : list (nat * list N);       (* node |-> hash of its i-th virtual node, i < cap *)
   c_probes : list (N * N);          (* (hash of probe key, hash of its inner repr) *)
-  c_results : list (list (option nat)) (* observed: per op, Get of every probe (None = absent) *)
+  c_results : list (list (option nat)); (* observed: per op, Get of every probe (None = absent) *)
+  c_balance_tol : nat               (* 0: no balance test; t > 0: final shares within t percent of weight share *)
 }.
 
 Definition min_replicas : nat := Z.to_nat C13_Gen.minReplicas.
@@ -109,9 +110,27 @@ Fixpoint spec_rows (vh : nat -> nat -> N) (cap : nat) (probes : list (N * N)) (m
   | _, _ => false
   end.
 
+(* statistical clause ("share roughly proportional to weight"): a TEST on fixed configurations, not a theorem *)
+Definition count_owner (n : nat) (row : list (option nat)) : nat :=
+  List.length (filter (fun ob => option_eqb Nat.eqb ob (Some n)) row).
+
+Definition balance_ok (tol : nat) (m : members) (row : list (option nat)) : bool :=
+  let total := fold_left (fun a nr => (a + snd nr)%nat) m 0%nat in
+  let keys := List.length row in
+  forallb (fun nr =>
+    let got := (count_owner (fst nr) row * total * 100)%nat in      (* observed share * total * 100 *)
+    let want := (keys * snd nr * 100)%nat in
+    let slack := (keys * snd nr * tol)%nat in
+    Nat.leb got (want + slack) && Nat.leb want (got + slack)) m.
+
 Definition spec_ok (c : case) : bool :=
   let cap := cap_of c in
-  spec_rows (vh_of c) cap (c_probes c) [] (map (fun _ => None) (c_probes c)) (map (to_op cap) (c_ops c)) (c_results c).
+  let ops := map (to_op cap) (c_ops c) in
+  spec_rows (vh_of c) cap (c_probes c) [] (map (fun _ => None) (c_probes c)) ops (c_results c) &&
+  match c_balance_tol c with
+  | O => true
+  | tol => balance_ok tol (fold_left (sstep cap) (map sop_of ops) []) (last (c_results c) [])
+  end.
 
 (* the hash table of a case must satisfy the no-collision hypothesis of the theorems; measured per case *)
 Fixpoint nodup_N (l : list N) : bool :=
